@@ -65,7 +65,7 @@ func main() {
 	}
 	defer drv.Close()
 	res.Extra["routers"] = len(tables)
-	runRegen(f, res)
+	runRegen(f, res, drv)
 	runForward(f, res, drv)
 	runE2ECases(f, res)
 	runWrappers(f, res)
